@@ -310,10 +310,29 @@ def check_corruptions(spec, ctx):
     expect_refusal(ctx, "FeatureInterval:start>end", lambda: FeatureInterval([fb[0][1] + 1], [fb[0][0]], STRAND[f["strand"]]), valid_interval)
     expect_refusal(ctx, "FeatureInterval:qualifiers_not_dict", lambda: FeatureInterval([fb[0][0]], [fb[0][1]], Strand.PLUS, qualifiers=["a"]), lambda x: "accepted")
     expect_refusal(ctx, "FeatureInterval:qualifier_values_not_list", lambda: FeatureInterval([fb[0][0]], [fb[0][1]], Strand.PLUS, qualifiers={"a": "b"}), lambda x: "accepted")
+    # --- a sequence chunk without a direction on its chromosome: positions on it cannot be related to chromosome positions, so an
+    # interval cannot be placed on it - refused, never answered with an interval that has silently lost its bases
+    from inscripta.biocantor.io.parser import seq_chunk_to_parent as _sc2p
+
+    def _on_undirected_chunk(cls, starts_, ends_, strand_, **kw):
+        x = cls(starts_, ends_, strand_, parent_or_seq_chunk_parent=_sc2p(g, "chr1", 0, n, strand=Strand.UNSTRANDED), **kw)
+        return x
+
+    def _lost_bases(x):
+        crl = x.chunk_relative_location
+        return "interval accepted on an undirected chunk with an empty chunk-relative location" if crl.is_empty else (valid_interval(x))
+    expect_refusal(ctx, "FeatureInterval:chunk_without_direction", lambda: _on_undirected_chunk(FeatureInterval, [x[0] for x in fb], [x[1] for x in fb], STRAND[f["strand"]]), _lost_bases)
+    expect_refusal(ctx, "TranscriptInterval:chunk_without_direction", lambda: _on_undirected_chunk(TranscriptInterval, starts, ends, S_), _lost_bases)
     # --- collections
     tx_ok = mktx(t)
     expect_refusal(ctx, "GeneInterval:empty", lambda: GeneInterval([]), valid_interval)
     expect_refusal(ctx, "GeneInterval:duplicate_children", lambda: GeneInterval([mktx(t), mktx(t)]), valid_interval)
+    # the same content with its qualifiers written down in another order (keys and values) is the same child
+    def _requal(d_):
+        q_ = d_.get("qualifiers") or {}
+        return dict(d_, qualifiers={k_: list(reversed(q_[k_])) for k_ in reversed(list(q_))})
+    if len(t.get("qualifiers") or {}) >= 2 or any(len(v_) >= 2 for v_ in (t.get("qualifiers") or {}).values()):
+        expect_refusal(ctx, "GeneInterval:duplicate_children_qualifiers_in_another_order", lambda: GeneInterval([mktx(t), mktx(_requal(t))]), lambda x: "two children of the same content accepted")
     # two DIFFERENT children that carry the same identifier (caller-supplied GUIDs that collide): one of them would become unreachable
     import uuid as _uuid
     same = _uuid.UUID("12345678-1234-5678-1234-567812345678")
@@ -329,6 +348,8 @@ def check_corruptions(spec, ctx):
     expect_refusal(ctx, "GeneInterval:two_primaries", lambda: GeneInterval([mktx(t_prim), mktx(t_prim2)]), lambda x: "accepted")
     expect_refusal(ctx, "FeatureIntervalCollection:empty", lambda: FeatureIntervalCollection([]), valid_interval)
     expect_refusal(ctx, "FeatureIntervalCollection:duplicate_children", lambda: FeatureIntervalCollection([mkfeat(f), mkfeat(f)]), valid_interval)
+    if len(f.get("qualifiers") or {}) >= 2 or any(len(v_) >= 2 for v_ in (f.get("qualifiers") or {}).values()):
+        expect_refusal(ctx, "FeatureIntervalCollection:duplicate_children_qualifiers_in_another_order", lambda: FeatureIntervalCollection([mkfeat(f), mkfeat(_requal(f))]), lambda x: "two children of the same content accepted")
     expect_refusal(ctx, "GeneInterval:mismatched_parent_children",
                    lambda: GeneInterval([mktx(t, chrom_parent(g, name="chrA"))], parent_or_seq_chunk_parent=chrom_parent(g + "A", name="chrB")).get_reference_sequence() and None,
                    lambda x: None)
